@@ -23,6 +23,7 @@ from sa.terms import T
 from sa.pyfront import Program
 
 RULES = {
+    "R-C18-m": "the input-format helper as_separate_validity (summarised by every aggregate rule) keeps its contract: a (values, validity) pair is passed through; a single array gets validity = ~isnan(array) for every dtype with a missing marker (all float widths, datetime64 / timedelta64 NaT) - a dtype shortcut to all-True is accepted only for marker-free kinds",
     "R-C18-l": "with several fact columns and per-row weights the constructor fields stay (rows, columns): paired transposes around every combination with the weight vector",
     "R-C18-k": "weighted quantile, invariance under rescaling all weights: quantities derived from the weights are compared only with 0 or with each other, never with an absolute tolerance (isclose / allclose default atol) or a non-zero literal",
     "R-C18-j": "standard deviation, dispatch and arithmetic: one column is handed over whole, several columns are filled one by one (column i of every row array into column i of every region, for all i); a cell needs at least 2 rows; both fill routines scale the weighted variance by N / (N - 1); valid and missing rows are counted per column",
@@ -724,6 +725,11 @@ def main(tier):
                       declined="per-cell numerical equality with the textbook statistic (floating-point values)")
     rep.trusted_base = ["CPython ast", "symbolic walker + configuration oracle", "aggregate algebra normaliser", "NumPy: quantile/corrcoef/cov/amin/amax propagate NaN; nanquantile ignores NaN"]
     prog = Program()
+    from sa import valhelper
+    nvh = 0
+    for _m in ('xfuncs',):
+        nvh += valhelper.check(prog, rep, _m, 'R-C18-m')
+    rep.floor('R-C18-m', 2, nvh)
     rule_a(prog, rep)
     rule_b(prog, rep)
     rule_c(prog, rep)
